@@ -166,6 +166,8 @@ def plan(tier, rng, sl, nslices, stats):
         yield dense_case(rng)
     for i in range(max(6, cfg["random"] // 100)):
         yield gfa.large_case(rng)
+    for i in range(2):
+        yield long_chain_case(rng)
     if cfg.get("exhaustive"):
         for (n, k) in ((1, 1), (1, 2), (2, 1)):
             tot = gfa.exhaustive_count(n, k)
@@ -176,6 +178,19 @@ def plan(tier, rng, sl, nslices, stats):
         tot = gfa.exhaustive_count(2, 2)
         for _ in range(8000):
             yield gfa.exhaustive_nth(2, 2, rng.randrange(tot))
+
+
+def long_chain_case(rng):
+    """a chain of several hundred states (a simple path far longer than Python's usual recursion depth, bounds far
+    beyond 256) with two final states; sometimes closed into a cycle by an epsilon edge"""
+    n = rng.choice([300, 620])
+    trans = [[i, 0, i + 1] for i in range(n - 1)]
+    cyc = rng.random() < 0.3
+    if cyc:
+        trans.append([n - 1, gfa.EPSID, 0])
+    return {"kind": rng.choice(["enfa", "enfa", "dfa"]) if not cyc else "enfa", "n": n, "k": 1, "start": [0],
+            "final": [5, n - 1], "trans": trans, "extra": [], "vc": "int", "token": False,
+            "chain": [257, n - 10, n + 3] if not cyc else [258]}
 
 
 def dense_case(rng):
@@ -203,11 +218,11 @@ def run_case(c, stats):
     call(fa.is_empty)
     call(bool, fa)
     call(fa.is_deterministic)
-    if len(ref.states) <= 6:
+    if len(ref.states) <= 6 or c.get("chain"):
         call(fa.is_acyclic)
     with core.oracle_mode():
         pass
-    for n in ((c["dense"],) if c.get("dense") else (0, 1, 2, 3, 4, None)):
+    for n in ((c["dense"],) if c.get("dense") else tuple(c["chain"]) if c.get("chain") else (0, 1, 2, 3, 4, None)):
         if n is not None and n > 3 and len(ref.alpha) > 2:
             continue
         LOGd = core.LOG.depth
